@@ -15,10 +15,24 @@ def find_minimum_indents(source_code):
     return result
 
 
+def split_lines_keepends(text):
+    """Like ``text.splitlines(True)``, but only ``\\n`` ends a line.
+
+    ``str.splitlines`` also breaks at form feeds, ``\\x1c``, ``\\x85``, ``\\u2028``
+    ..., which are ordinary characters of a Python source line (usually
+    inside a string literal).
+    """
+    parts = text.split("\n")
+    lines = [part + "\n" for part in parts[:-1]]
+    if parts[-1]:
+        lines.append(parts[-1])
+    return lines
+
+
 def indent_lines(source_code, amount):
     if amount == 0:
         return source_code
-    lines = source_code.splitlines(True)
+    lines = split_lines_keepends(source_code)
     result = []
     for line in lines:
         if line.strip() == "":
